@@ -187,6 +187,8 @@ impl Database {
         let mut storage = storage_arc.write();
         storage.grow(2)?;
         crate::btree::BTree::create(&mut *storage, 1)?;
+        // the catalog will mention this file: its initial pages must be on disk first
+        storage.sync()?;
 
         let needs_toast = {
             let catalog_guard = self.shared.catalog.read();
@@ -207,6 +209,7 @@ impl Database {
             let mut toast_storage = toast_storage_arc.write();
             toast_storage.grow(2)?;
             crate::btree::BTree::create(&mut *toast_storage, 1)?;
+            toast_storage.sync()?;
 
             self.shared.table_id_lookup.write().insert(
                 toast_id as u32,
@@ -248,6 +251,7 @@ impl Database {
             let mut index_storage = index_storage_arc.write();
             index_storage.grow(2)?;
             crate::btree::BTree::create(&mut *index_storage, 1)?;
+            index_storage.sync()?;
 
             let index_def = crate::schema::table::IndexDef::new(
                 index_name.clone(),
@@ -303,6 +307,8 @@ impl Database {
                     let mut index_storage = index_storage_arc.write();
                     index_storage.grow(2)?;
                     crate::btree::BTree::create(&mut *index_storage, 1)?;
+                    index_storage.sync()?;
+            index_storage.sync()?;
 
                     let index_def = crate::schema::table::IndexDef::new(
                         index_name,
@@ -505,6 +511,7 @@ impl Database {
             let mut index_storage = index_storage_arc.write();
             index_storage.grow(2)?;
             BTree::create(&mut *index_storage, 1)?;
+            index_storage.sync()?;
         }
 
         if can_populate {
